@@ -494,6 +494,10 @@ def x_ctor(p):
         iv = [[val(r * nc + c) for c in range(nc)] for r in range(len(vals) // nc)]
         if init.get("nd", True):
             iv = np.array(iv)
+            if init.get("order") == "F":
+                iv = np.asfortranarray(iv)       # same table, column-major memory layout
+            elif init.get("order") == "T":
+                iv = np.array(iv.T.tolist()).T   # a transposed view of a per-column table
     names = p.get("names")
     exc, obj = None, None
     try:
